@@ -1,5 +1,6 @@
 import PeroVerif.Drv.Common
 import PeroVerif.Model.KVCache
+import PeroVerif.Model.Decoder
 open Lean Drv
 
 namespace Drv.C20
@@ -8,6 +9,14 @@ open KV
 def jTag : Tag → Json
   | none => Json.null
   | some (n, t) => jNats [n, t]
+
+partial def jTerm : Dec.Term → Json
+  | .var n i => Json.arr #[Json.str n, jNat i]
+  | .app f l args => Json.arr #[Json.str f, jNat l, Json.arr (args.map jTerm).toArray]
+
+def jOptTerm : Option Dec.Term → Json
+  | none => Json.null
+  | some t => jTerm t
 
 def handle : Handler := fun j => do
   let op ← getStr j "op"
@@ -23,6 +32,24 @@ def handle : Handler := fun j => do
       Json.mkObj [("batch", jNat x.1), ("step", jNat x.2.1),
         ("fresh", Json.bool (x.2.2.fresh x.1 x.2.1 ((bs.getD x.1 ⟨0, 0, 0⟩).srcLen))),
         ("self", jList jTag x.2.2.selfSlots), ("mem", jList jTag x.2.2.memSlots)]) rs)
+  | "decoder" =>
+    -- the computation of the decoder as terms: full masked pass, and the step-by-step runs (cached / uncached)
+    -- started from stale caches, for `layers` layers and `steps` fed symbols
+    let L ← getNat j "layers"
+    let T ← getNat j "steps"
+    let maxLen ← getNat j "max_len"
+    let xs := (List.range T).map fun i => Dec.Term.var "x" i
+    let mem := Dec.Term.var "mem" 0
+    let fs := Dec.symLayers L
+    let ss := (List.range L).map (Dec.staleState maxLen)
+    let full := Dec.fullDecoder fs mem xs
+    let cached := (Dec.runSteps true fs mem [] xs ss).2
+    let uncached := (Dec.runSteps false fs mem [] xs ss).2
+    -- a second line decoded with the objects the first run left behind (other encoder output "mem" 1)
+    let ss' := (Dec.runSteps true fs (Dec.Term.var "mem" 1) [] ((List.range (T + 1)).map fun i => Dec.Term.var "y" i) ss).1
+    let again := (Dec.runSteps true fs mem [] xs ss').2
+    return ok (Json.mkObj [("full", jList jTerm full), ("cached", jList jOptTerm cached),
+      ("uncached", jList jOptTerm uncached), ("after_history", jList jOptTerm again)])
   | "postprocess" =>
     return ok (jNats (postprocess (← getNat j "eos") (← getNat j "ign") (← getNatList j "line")))
   | _ => throw s!"C20: unknown op {op}"
